@@ -29,9 +29,15 @@
 (*            "xdeep" representative pairs: one of the two objects arrives *)
 (*            by unpickling from another interpreter process (arr says     *)
 (*            how each object arrives), pair alphabet                      *)
+(*   "self"   ONE object (quick: the NaN-carrying catalogue members; wide: *)
+(*            every catalogue member) x every history of length SelfDepth  *)
+(*            over the self alphabet: == / != of an object with ITSELF,    *)
+(*            hash, dict put / get of itself, copies and mapper results    *)
+(*            and the same on those ("selfn": the NaN-carrying members at  *)
+(*            depth SelfDepth + 1; "ssmall": three of them, no emission)   *)
 (***************************************************************************)
 EXTENDS C01_Objects, C01_Catalogue, Json
-CONSTANTS Sweeps, PairDepth, NearDepth, DeepDepth, HierDepth, XDepth, Wide, EmitCases
+CONSTANTS Sweeps, PairDepth, NearDepth, DeepDepth, HierDepth, XDepth, SelfDepth, Wide, EmitCases
 VARIABLES todo, hist, sweep, arr
 
 vars == << objs, dict, last, cmemo, todo, hist, sweep, arr >>
@@ -64,7 +70,11 @@ SmallPairs == {
     << Bin("ULeg", One, M1), Bin("ULeg", One, M2) >>,
     << Bin("ULeg", One, Two), Bin("ULeg", OneB, Two) >>,
     << Bin("Lookup", x, CStr("p")), Bin("Lookup", x, CStr("q")) >>,
-    << CallKwN(ff, << x >>, Dct(A1B2)), CallKwN(ff, << x >>, Imm(<< KwE("b", Two), KwE("a", One) >>)) >> }
+    << CallKwN(ff, << x >>, Dct(A1B2)), CallKwN(ff, << x >>, Imm(<< KwE("b", Two), KwE("a", One) >>)) >>,
+    \* a value that is not == itself: directly in a field, in a tuple field
+    << PowN1, PowN1 >>,
+    << Ch("Sum", << x, N1 >>), Ch("Sum", << x, N1 >>) >> }
+SelfSmall == { << PowN1 >>, << Un("LogicalNot", PowN1) >>, << U3("ULegChild", x, y, N1) >> }
 
 \* how the objects of a tuple arrive (position by position; beyond its length: built here)
 XCombos == { << "pkh", "" >>, << "pkc", "" >>, << "", "pkh" >> }
@@ -89,6 +99,9 @@ Init ==
                   [] sweep = "xnear" -> NearPairs
                   [] sweep = "xdeep" -> RepPairsQuick \cup (IF Wide THEN Twins(RepPairsQuick) ELSE {})
                   [] sweep = "xsmall" -> SmallPairs \cup Twins(SmallPairs)
+                  [] sweep = "self"  -> { << sp >> : sp \in (IF Wide THEN AllSpecs ELSE NaNSpecsQuick) }
+                  [] sweep = "selfn" -> { << sp >> : sp \in NaNSpecs }
+                  [] sweep = "ssmall" -> SelfSmall
     /\ arr \in (IF sweep \in XSweeps THEN XCombos
                 ELSE IF sweep = "sim" THEN XCombos \cup { << >> } ELSE { << >> })
 
@@ -116,6 +129,18 @@ UseAlphabet ==
   \cup { EvPut(i, Len(hist)) : i \in I }
   \cup { EvGet(i) : i \in I }
 
+\* an object with itself, its copies / mapper results with themselves and with it
+SelfAlphabet ==
+    LET I == 1..N IN
+       { EvHash(i) : i \in I }
+  \cup { EvEq(i, i) : i \in I } \cup { EvNe(i, i) : i \in I }
+  \cup { EvEq(1, j) : j \in I \ {1} } \cup { EvEq(j, 1) : j \in I \ {1} }
+  \cup { EvPut(i, Len(hist)) : i \in I }
+  \cup { EvGet(i) : i \in I }
+  \cup (IF N < 3 THEN { EvCopy(1, md) : md \in {"copy", "deepcopy", "pickle"} }
+                   \cup { EvTouch(1, md) : md \in {"stock", "rebuild"} }
+        ELSE {})
+
 FullAlphabet ==
     LET I == 1..N IN
        { EvHash(i) : i \in I }
@@ -141,6 +166,8 @@ Depth == CASE sweep = "pairs" -> PairDepth
            [] sweep \in {"xtwin", "xsmall"} -> XDepth
            [] sweep = "xnear" -> 1
            [] sweep = "xdeep" -> PairDepth
+           [] sweep \in {"self", "ssmall"} -> SelfDepth
+           [] sweep = "selfn" -> SelfDepth + 1
 NNew == Len(SelectSeq(hist, LAMBDA e : e.op = "New"))
 NOps == Len(hist) - NNew
 
@@ -157,7 +184,10 @@ Next ==
          /\ ~Deviated          \* a behaviour ends at a named deviation, as a judged trace does
          /\ \E ev \in (IF sweep \in {"pairs", "near", "xtwin", "xnear", "xdeep"} THEN PairAlphabet
                         ELSE IF sweep \in {"hier", "hsmall"} THEN UseAlphabet
+                        ELSE IF sweep \in {"self", "selfn", "ssmall"} THEN SelfAlphabet
                         ELSE FullAlphabet) :
+               \* (a put the dict model cannot follow, see C01_Objects!PutAmbiguous)
+               /\ ~(ev.op = "DictPut" /\ PutAmbiguous(Cur, ev.i))
                /\ Step(ev)
                /\ hist' = Append(hist, ev)
          /\ UNCHANGED << todo, sweep, arr >>
